@@ -138,6 +138,11 @@ func (g Gateway) RegisterSwamp(_ context.Context, in *hydrapb.RegisterSwampReque
 		return nil, status.Error(codes.InvalidArgument, "SwampPattern cannot be empty")
 	}
 
+	if !isLoadableSwampName(in.SwampPattern) {
+		// return with grpc error message
+		return nil, status.Error(codes.InvalidArgument, "SwampPattern must have the form sanctuary/realm/swamp")
+	}
+
 	// try to create the pattern from the input string
 	swampPattern := name.Load(in.SwampPattern)
 
@@ -181,6 +186,11 @@ func (g Gateway) DeRegisterSwamp(_ context.Context, in *hydrapb.DeRegisterSwampR
 	if in.SwampPattern == "" {
 		// return with grpc error message
 		return nil, status.Error(codes.InvalidArgument, "SwampPattern cannot be empty")
+	}
+
+	if !isLoadableSwampName(in.SwampPattern) {
+		// return with grpc error message
+		return nil, status.Error(codes.InvalidArgument, "SwampPattern must have the form sanctuary/realm/swamp")
 	}
 
 	// try to create the pattern from the input string
@@ -1263,6 +1273,13 @@ func (g Gateway) DestroyBulk(stream hydrapb.HydraideService_DestroyBulkServer) e
 		go func() {
 			defer wg.Done()
 			for target := range workCh {
+				// a malformed name must not reach name.Load: a panic in this worker goroutine
+				// is not recovered by handlePanic and would take the whole server down
+				if !isLoadableSwampName(target.GetSwampName()) {
+					failed.Add(1)
+					lastError.Store(fmt.Sprintf("%s: invalid swamp name", target.GetSwampName()))
+					continue
+				}
 				swampName := name.Load(target.GetSwampName())
 				swampInterface, err := hydraInterface.SummonSwamp(stream.Context(), target.GetIslandID(), swampName)
 				if err != nil {
@@ -2964,6 +2981,12 @@ func handlePanic() {
 	}
 }
 
+// isLoadableSwampName reports whether name.Load can parse the name: it needs the three
+// "/"-separated parts sanctuary/realm/swamp and indexes them without a length check.
+func isLoadableSwampName(swampName string) bool {
+	return strings.Count(swampName, "/") >= 2
+}
+
 // checkSwampName check if the swamp name is valid and exist or not.
 // The function will return a grpc error message if the swamp name is invalid or does not exist.
 func checkSwampName(zeusInterface zeus.Zeus, islandID uint64, inputSwampName string, checkExist bool) (name.Name, error) {
@@ -2972,6 +2995,10 @@ func checkSwampName(zeusInterface zeus.Zeus, islandID uint64, inputSwampName str
 	if inputSwampName == "" {
 		// return with grpc error message
 		return nil, status.Error(codes.InvalidArgument, "SwampName cannot be empty")
+	}
+	if !isLoadableSwampName(inputSwampName) {
+		// return with grpc error message
+		return nil, status.Error(codes.InvalidArgument, "SwampName must have the form sanctuary/realm/swamp")
 	}
 	swampName := name.Load(inputSwampName)
 
